@@ -74,6 +74,23 @@ Verdict(e, menu) ==
                       ELSE IF c.k # "val" THEN (IF e.out = "ok" THEN "missed_overflow" ELSE "wrong_reaction")
                       ELSE IF e.out # "ok" THEN "false_overflow" ELSE "silently_wrong"),
                nt |-> TRUE, cls |-> cls]
+      [] e.e = "StIncDec" ->
+           \* ++d, d++, --d, d--: d := d +- 1 (one, not one unit of the last place), stored like the result of a Step
+           LET td == menu[e.d]  b0 == J(e.before)  ex == TExp(td)  em == MinI(ex, 0)
+               all == [r \in 1..NR |-> J(e.all[r])]
+               one == Pow2(-em)
+               raw1 == IF e.op \in {"preinc", "postinc"} THEN Add(Shl(b0, ex - em), one) ELSE Sub(Shl(b0, ex - em), one)
+               c == ConvertTo(<<raw1, em>>, td)
+               cls == <<"StIncDec", e.op, OverflowOf(td), RoundingOf(td), IF c.k # "val" THEN "overflow" ELSE "in_range">>
+           IN [d |-> (IF b0 # regs[e.d] THEN "state_mismatch"
+                      ELSE IF MUbOut(e.out) THEN "ub"
+                      ELSE IF e.out = "unreachable" THEN "unreachable"
+                      ELSE IF \E r \in 1..NR : r # e.d /\ all[r] # regs[r] THEN "other_register_changed"
+                      ELSE IF all[e.d] # J(e.after) THEN "bad_event"
+                      ELSE IF StoreOK(<<raw1, em>>, td, b0, J(e.after), e.out) THEN "ok"
+                      ELSE IF c.k # "val" THEN (IF e.out = "ok" THEN "missed_overflow" ELSE "wrong_reaction")
+                      ELSE IF e.out # "ok" THEN "false_overflow" ELSE "silently_wrong"),
+               nt |-> TRUE, cls |-> cls]
       [] e.e = "StFromFlt" ->
            LET td == menu[e.d]  f == e.x
                xv == <<IF f.n = 1 THEN Neg(FMag(f)) ELSE FMag(f), f.e>>           \* the double, exactly
@@ -119,7 +136,7 @@ AsCodedM(e, menu) ==
 NextRegs(e) ==
     CASE e.e = "StReset" -> ZeroRegs
       [] e.e = "StLoad" -> [regs EXCEPT ![e.r] = J(e.v)]
-      [] e.e \in {"StStep", "StFromInt", "StFromFlt", "StCmp", "StToFlt"} -> [r \in 1..NR |-> J(e.all[r])]      \* re-synchronise from the recorded state
+      [] e.e \in {"StStep", "StFromInt", "StFromFlt", "StCmp", "StToFlt", "StIncDec"} -> [r \in 1..NR |-> J(e.all[r])]      \* re-synchronise from the recorded state
       [] OTHER -> regs
 
 Init == l = 1 /\ regs = ZeroRegs
